@@ -189,14 +189,15 @@ def judge(ctx, case):
     elif sc == "query":
         check_query(case, db, feats, {x["id"]: x for x in dbside.rows_of(db)}, res)
     elif sc == "history":
+        # the lists are asked for after the import and after every step, as in the run (the questions are part of
+        # the history: an answer may depend on what was asked before)
         alive = list(feats)
-        when = "after import"
-        for step in case["history"]:
+        check_lists(dict(case, history=[]), db, alive, "after import", res)
+        for i, step in enumerate(case["history"]):
             if step[0] == "delete" and not any(f["ftype"] == step[1] for f in alive):
                 continue
             alive, desc = apply_step(ctx, db, step, alive)
-            when = "after " + desc
-        check_lists(case, db, alive, when, res)
+            check_lists(dict(case, history=case["history"][: i + 1]), db, alive, "after " + desc, res)
     return res
 
 
